@@ -194,6 +194,8 @@ func doDump(c *Ctx, what string) {
 		for _, f := range c.REval.Sorted() {
 			fmt.Println("  E", shortFn(f))
 		}
+	case what == "guards":
+		dumpGuardSites(c)
 	case what == "boxed":
 		for _, f := range c.G.Boxed {
 			fmt.Println("  in ", shortFn(f))
